@@ -287,9 +287,9 @@ def mint_prop(pid, title, lean, text, extra_note="", streams=("mint-seq", "mint-
         "assumptions": MINT_ASSUME,
     }
 
-mint_prop("C02", "No inflation: outstanding ecash plus Lightning outflow never exceeds inflow", ["Gonuts.Props.C02"],
+mint_prop("C02", "No inflation: outstanding ecash plus Lightning outflow never exceeds inflow", ["Gonuts.Props.C02", "Gonuts.Props.C02Ledger"],
     "PROVED for the model, for every input (UInt64 semantics incl. Go's unchecked wrap-around), every fee configuration and every Lightning script: swap outputs + input fee <= inputs in N with NO size hypothesis (swap_out_le_in_minus_fee: the unchecked input sum can only wrap down); signatures are for exactly the requested output amounts on the active keyset (signatures_match_outputs); mint outputs <= quote amount and the quote was PAID (mint_out_le_quote); an accepted melt holds >= amount + fee reserve + input fees (melt_burns_amount_reserve_fees); a melt makes at most one payment attempt, for the quote's invoice and msat amount, with the quote's FEE RESERVE as fee limit (fee_limit_eq_reserve, F1); 1000*quoted amount >= msat to be paid, full and MPP (meltquote_covers_msat, F2); fee = ceil(sum ppk/1000) per input keyset (C09.fees_per_keyset, C18.transactionFees_eq_ceil).",
-    "The history-level ledger inequality (issued - spent - locked + lnOut + credit <= lnIn) is NOT a Lean theorem yet: it is evaluated on the implementation after every operation by the model-free ledger monitor (msat arithmetic, scripted backend charging the whole fee limit); the per-operation bounds above are its inductive steps.")
+    "The history-level statement IS a theorem (Props.C02Ledger.ledger / no_inflation / pending_melts_covered, by induction over the unbounded op list with the potential Led of Lemmas/MintLedger.lean): in every state reached from a fresh mint by any sequential fault-free history of admissible operations, 1000*(signed + credit) + paidOut <= 1000*(received + redeemed) and every PENDING melt is covered by the inputs locked under it; admissible excludes only watcher notifications for unsettled invoices, melts whose amount+reserve+fees wraps in 64 bits, and internal settlement against a LARGER mint quote (only constructible with the scripted backend's stand-in invoices >= 2^40 sat). Outside the theorem: overlapping requests and storage faults (known findings C01/C03/C07 - a double spend is inflation) and the step from the model's paidOut bound to actual outflow (C05 + fee_limit_eq_reserve + meltquote_covers_msat). The model-free ledger monitor (msat arithmetic, backend charging the whole fee limit) evaluates the same inequality on the real mint after every operation of mint-seq / mint-mon.")
 mint_prop("C03", "A mint quote is issued at most once per payment, never before it is paid", ["Gonuts.Props.C03"],
     "PROVED for the model (mint after F11), sequential histories: issuance only on a quote that is PAID or UNPAID-with-settled-invoice (never_before_paid); for at most the quoted amount (amount_le_quote); for a NUT-20 locked quote only with a signature by that key over exactly (quote id, the submitted B_ in order) — no/garbage signature, other key, other quote, reordered/added/removed outputs refused (quoteSigOk_iff, nut20_required); after success the quote is ISSUED (issued_after_success), an ISSUED quote refuses with 20002 without any change or backend call (issued_refuses), and it stays ISSUED through any list of further mint requests, polls with any answer, watcher notifications, new quotes and swaps (issued_stays_issued, at_most_once; induction over the unbounded event list); the watcher writes PAID only over UNPAID (watcher_cases). (Every event sequence of arrivals, single-call scheduler steps, faults and kills) a blinded message is signed at most once, stored signatures and quote terms are never lost (signed_once_schedule, signature_kept_schedule, quote_terms_fixed_schedule). The concurrent half (however requests, polls and the notification interleave) is FALSE of the code: schedules_full_false with kernel-checked witnesses w3 (mint||mint: 16 issued for 8 paid) and w3n (watcher read->write window left by F11), reproduced against the real mint by stream mint-sched, known findings C03/sched/*.",
     "Stream mint-sched: mint||mint (valid and invalid second request), mint||watcher notification, mint||poll||notification, internal melt||mint as scheduled goroutines over the real mint, model stepped in lockstep; the issuance-count monitor is evaluated when all threads have returned and after one more sequential mint request.",
@@ -318,4 +318,4 @@ mint_prop("C15", "State check and restore tell the truth about everything the mi
     streams=("mint-seq", "mint-mon", "mint-crash"), shards={"mint-crash": 4}, qshards={"mint-crash": 3})
 mint_prop("C16", "Reported balances are exact and configured limits are enforced", ["Gonuts.Props.C16"],
     "PROVED for the model: the per-keyset views are exact sums over ALL stored signatures / spent proofs, one row per keyset with rows, failing iff a sum reaches 2^63 (groupSum_exact); the balance query reports those, their UInt64 difference, and nut04.disabled iff MaxBalance>0 and balance>=MaxBalance (balance_report); a mint quote is created only if amount<=MaxAmount (when set) and balance+amount<=MaxBalance in the Go's uint64 arithmetic, with amount<2^63 so that the comparison is exact in N (mintquote_accept_only_if, balance_limit_exact); a melt quote only within the melt maximum (meltquote_accept_only_if).",
-    "Non-negativity of the balance (redeemed <= issued) follows from the ledger inequality, which is monitor-checked, not yet a theorem (see C02).")
+    "Non-negativity of the balance follows from the ledger theorem (Props.C02Ledger.no_inflation / nothing_from_nothing) for sequential fault-free histories.")
